@@ -30,15 +30,22 @@ def session_start_index(events, start_ordinal=-1):
     rs = [i for i in range(begin, ret_i) if events[i].get('e') == 'txm' and events[i]['type'] == C('MSG_SYS_RESET')]
     return (rs[-1] if rs else begin), ret_i
 
-def fold(m, events, begin=0, hooks=None, on_snap=None, stop_at=None):
+def fold(m, events, begin=0, hooks=None, on_snap=None, stop_at=None, reset_restores_initial=False):
     """applies events[begin:] to model m. hooks: dict mark-name -> callable(model). on_snap(model, snap_event) is called at every
     snap event (the model at that point is what the getters must report)."""
     pk = packets_of(events)
+    import copy
+    initial = copy.deepcopy(m.st) if reset_restores_initial else None
     for i in range(begin, len(events)):
         e = events[i]
         k = e.get('e')
         if stop_at is not None and i >= stop_at:
             break
+        if k == 'txm' and initial is not None and i > begin and e['type'] == C('MSG_SYS_RESET'):
+            # bidib_send_sys_reset in mid-session: every tracked value is back at its initial state (the node tree is the same - callers use
+            # this only for histories without node notices), what the bus answers afterwards is folded as usual
+            m.st = copy.deepcopy(initial)
+            continue
         if k == 'txm':
             m.on_wire(tuple(e['addr']), e['type'], bytes.fromhex(e['data']))
         elif k == 'rxc':
